@@ -305,12 +305,14 @@ def main():
     mt = by_name["bgp.message.mod.MsgType"]
     msg_arms = []
     msg_default_ok = False
-    for m in re.finditer(r"(\w+)\s*=>\s*MsgType::(\w+)(\((\w+)\))?", b):
+    # an arm may name several numbers (`5 | 128 => MsgType::RouteRefresh`): each of them is an arm of the table
+    for m in re.finditer(r"((?:\w+\s*\|\s*)*\w+)\s*=>\s*MsgType::(\w+)(\((\w+)\))?", b):
         lhs, v, _, arg = m.groups()
         if v == "Unimplemented":
-            msg_default_ok = (arg == lhs)
+            msg_default_ok = (arg == lhs.strip())
         else:
-            msg_arms.append((parse_int(lhs), variant_index(mt, v)))
+            for one in lhs.split("|"):
+                msg_arms.append((parse_int(one.strip()), variant_index(mt, v)))
     # --- AddpathDirection, SegmentType ------------------------------------------
     def two_way(src, where, enum, tryfrom_rx, to_rx):
         vs = enum_variants(src, enum, where)
